@@ -174,6 +174,10 @@ type gcTask struct {
 }
 
 type Server struct {
+	// NilOnError: failed calls return a nil object next to the error, as the generated fake clientsets do
+	// (the default is the real typed clients' convention: a non-nil zero object). Code that is correct
+	// under both conventions is what the repository's own tests and production respectively rely on.
+	NilOnError bool
 	mu    sync.Mutex
 	Kube  *kubefake.Clientset
 	PC    *pcfake.Clientset
@@ -236,6 +240,7 @@ func (s *Server) Reset() {
 	s.faults = nil
 	s.occ = map[string]int{}
 	s.curRec = 0
+	s.NilOnError = false
 	s.gcq = nil
 	s.curActor = "controller"
 }
@@ -388,7 +393,7 @@ func (s *Server) react(a ktesting.Action, pc bool) (bool, runtime.Object, error)
 	if ret != nil && c.Verb != "list" {
 		c.Result = ret.DeepCopyObject()
 	}
-	if err != nil && ret == nil && c.Verb != "delete" {
+	if err != nil && ret == nil && c.Verb != "delete" && !s.NilOnError {
 		// like the real typed clients (and unlike the generated fakes' default), a failed call still hands
 		// back a non-nil zero object next to the error
 		if c.Verb == "list" {
